@@ -109,7 +109,7 @@ func drawFmtBody(t *rapid.T, noisy bool, feat map[string]bool) (canon, noise []s
 			emit(ind()+"##!> define "+nm+" "+v, lead()+"##!>"+gap()+"define"+gap()+nm+gap()+v+trail())
 			feat["define"] = true
 		case 5:
-			inc := pick(t, []string{"inc1", "inc2"}, "in")
+			inc := pick(t, []string{"inc1", "inc2", "sql--kw", "a-b"}, "in")
 			c := "##!> include " + inc
 			nn := lead() + "##!>" + gap() + "include" + gap() + inc
 			if chance(t, 40, "ipairs") {
@@ -190,6 +190,8 @@ func drawFmtFile(t *rapid.T, w *World) FmtFile {
 	w.Put("crs/regex-assembly/include/inc1.ra", "abs\nbes\ncx\n")
 	w.Put("crs/regex-assembly/include/inc2.ra", "##!^ p\nqq\nrr\n")
 	w.Put("crs/regex-assembly/exclude/exc1.ra", "bes\n")
+	w.Put("crs/regex-assembly/include/sql--kw.ra", "select\nunion\n")
+	w.Put("crs/regex-assembly/include/a-b.ra", "dash\n")
 	if chance(t, 25, "asinclude") {
 		f.IsInc = true
 		f.Path = "crs/regex-assembly/include/subject.ra"
@@ -203,14 +205,16 @@ func drawFmtFile(t *rapid.T, w *World) FmtFile {
 	case m <= 5:
 		f.Mode = "structured"
 		noisy := chance(t, 75, "noisy")
+		// third flavour: every line already canonical, only the line terminators / the end of the file are off
+		termOnly := !noisy && chance(t, 60, "termonly")
 		canon, noise, hasFlags := drawFmtBody(t, noisy, feat)
 		if f.IsInc && hasFlags {
 			// flags are not allowed in include files; keep the file format-only relevant
 		}
 		f.HasFlags = hasFlags
-		hasHeader := chance(t, 35, "hasheader")
+		hasHeader := chance(t, 35, "hasheader") || termOnly
 		nl := "\n"
-		if noisy && chance(t, 15, "crlf") {
+		if (noisy && chance(t, 15, "crlf")) || (termOnly && chance(t, 40, "crlf2")) {
 			nl = "\r\n"
 			feat["crlf"] = true
 		}
@@ -223,7 +227,11 @@ func drawFmtFile(t *rapid.T, w *World) FmtFile {
 			sb.WriteString(l + nl)
 		}
 		content = sb.String()
-		if noisy {
+		if termOnly {
+			feat["terminators-only"] = true
+			hasHeader = true
+		}
+		if noisy || termOnly {
 			switch drawInt(t, 0, 4, "eof") {
 			case 0:
 				content = strings.TrimRight(content, "\r\n")
